@@ -91,6 +91,12 @@ def gen_cases(ck):
     t0 = {"delim": 44, "ncols": 4, "nrows": 2, "out": 0, "out_kind": "num", "kinds": ["num", "num", "void", "num"],
           "cells": [["1", "2", "", "4"], ["5", "6", "", "8"]], "header": None}
     cases.append({"mode": "prob", "table": t0, "line": "prob fixed %s 0" % cc.hx("1,2,,4\n5,6,,8\n")})
+    # the witness of C09_has_header_named_numeric_refuted: a name over 1e5 / 1E5; sniffed vs explicit header
+    t1 = {"delim": 44, "ncols": 1, "nrows": 2, "out": 0, "out_kind": "num", "kinds": ["num"],
+          "cells": [["1e5"], ["1E5"]], "header": ["Abc"]}
+    cases.append({"mode": "csv", "table": t1, "line": cc.csv_line("Abc\n1e5\n1E5\n", 44, 1, False, 0)})
+    cases.append({"mode": "csv", "table": t1, "key_override": "sniff:header-exponent-case",
+                  "line": cc.csv_line("Abc\n1e5\n1E5\n", 44, -1, False, 0)})
     # 1. general tables, explicit settings, every delimiter / output index / quoting
     for _ in range(500 * n):
         t = cc.gen_table(rng)
@@ -189,7 +195,7 @@ def evaluate(ck, cases, hout, crashes, mout):
             if want != have:
                 bad = [("line:parse-render", "parse_line(render(%r)) = %r" % (c["fields"], have))]
         for key, msg in bad[:1]:
-            ck.add_violation(key, msg, replay)
+            ck.add_violation(c.get("key_override", key), msg, replay)
         if cc.canon(ho) != cc.canon(mo):
             ck.add_diff({"mode": c["mode"], "line": c["line"][:400]}, mo[:600], (ho or "")[:600])
     ck.coverage["per_mode"] = hist
